@@ -102,6 +102,10 @@ where
     fn call(&mut self, req: Req) -> Self::Future {
         let start = Instant::now();
         self.in_flight.fetch_add(1, Ordering::Relaxed);
+        // Gives the in-flight slot back when the call completes *or* its future is
+        // dropped (cancelled by an outer timeout, panicking inner call, ...); taken
+        // before `inner.call` so that a panic inside it does not leak the slot either
+        let in_flight = InFlightGuard(Arc::clone(&self.in_flight));
 
         let future = self.inner.call(req);
 
@@ -117,9 +121,6 @@ where
         }
 
         let algorithm = Arc::clone(&self.algorithm);
-        // Gives the in-flight slot back when the call completes *or* its future is
-        // dropped (cancelled by an outer timeout, panicking inner call, ...)
-        let in_flight = InFlightGuard(Arc::clone(&self.in_flight));
         let semaphore = Arc::clone(&self.semaphore);
         let current_limit = Arc::clone(&self.current_limit);
 
